@@ -16,6 +16,9 @@ package namedpipe
 //@   blocks cancellable external os.OpenFile: runs in its own goroutine, the caller selects on ctx.Done() and abandons it; bufio.Reader.Read: the goroutine waiting on ctx.Done() closes the file, which ends the blocked read
 //@   requires n != nil && n.Logger != nil && n.Health != nil && HealthOK(n.Health) && ctx != nil && callback != nil
 //@   ensures[nonnil] result != nil
+// The FIFO is opened read-only: a reader that holds a write end itself never sees end-of-stream (the kernel
+// reports EOF on a FIFO only when no writer is left), so end-of-stream could not be returned as an error.
+//@   assert_at OpenFile[readonly] flag == 0 && name == filePath
 //@   ensures[once] rdcount == old(rdcount) || rdcount == old(rdcount) + 1
 //@   ensures[noread] rdcount == old(rdcount) ==> len(cb) == old(len(cb))
 //@   ensures[count] rdcount == old(rdcount) + 1 ==> len(cb) - old(len(cb)) == rdrec(lastreader)
